@@ -414,6 +414,25 @@ def _renumber(tree):
         visit_stmt(s)
 
 
+def _extend_to_augassign(tree):
+    """`L.extend(X)` as a statement, for a local L bound to a list display / comprehension in the same function, is
+    `L += X` (both extend the list in place with the elements of the iterable X)."""
+    for fn in [n for n in ast.walk(tree) if isinstance(n, (ast.FunctionDef, ast.AsyncFunctionDef))]:
+        lists = {t.id for s in ast.walk(fn) if isinstance(s, ast.Assign) and isinstance(s.value, (ast.List, ast.ListComp)) for t in s.targets if isinstance(t, ast.Name)}
+        other = {t.id for s in ast.walk(fn) if isinstance(s, ast.Assign) and not isinstance(s.value, (ast.List, ast.ListComp)) for t in s.targets if isinstance(t, ast.Name)}
+        lists -= other
+        if not lists:
+            continue
+        for owner in ast.walk(fn):
+            for fld in ("body", "orelse", "finalbody"):
+                blk = getattr(owner, fld, None)
+                if not (isinstance(blk, list) and blk and isinstance(blk[0], ast.stmt)):
+                    continue
+                for i, s in enumerate(blk):
+                    if isinstance(s, ast.Expr) and isinstance(s.value, ast.Call) and isinstance(s.value.func, ast.Attribute) and s.value.func.attr == "extend" and isinstance(s.value.func.value, ast.Name) and s.value.func.value.id in lists and len(s.value.args) == 1 and not s.value.keywords:
+                        blk[i] = ast.fix_missing_locations(ast.copy_location(ast.AugAssign(target=ast.Name(id=s.value.func.value.id, ctx=ast.Store()), op=ast.Add(), value=s.value.args[0]), s))
+
+
 def _normalise_syntax(tree):
     """Statement-level normal forms applied to every module before anything is indexed, so that spelling variants of
     one program are one program to every rule (each rewrite preserves behaviour):
@@ -430,6 +449,7 @@ def _normalise_syntax(tree):
 
     _unroll_records(tree)
     _inline_exception_tuples(tree)
+    _extend_to_augassign(tree)
     # unread constant locals
     for fn in [n for n in ast.walk(tree) if isinstance(n, (ast.FunctionDef, ast.AsyncFunctionDef))]:
         loads, declared, dyn = set(), set(), False
